@@ -11,7 +11,10 @@ from fractions import Fraction
 import numpy as np
 
 VERIF = os.path.dirname(os.path.dirname(os.path.dirname(os.path.abspath(__file__))))
-LEAN_DIR = os.path.join(VERIF, "lean")
+# GBASIS_LEAN_DIR / GBASIS_OUT_DIR are used only by tools/try_seed.py (private copy of the Lean project and scratch output
+# directory when the checks are pointed at a seeded change); the registered commands never set them
+LEAN_DIR = os.environ.get("GBASIS_LEAN_DIR") or os.path.join(VERIF, "lean")
+OUT_DIR = os.environ.get("GBASIS_OUT_DIR") or VERIF
 MODEL_EXE = os.path.join(LEAN_DIR, ".lake", "build", "bin", "gbmodel")
 REPO = os.environ.get("GBASIS_REPO", "/repo")
 
